@@ -1,5 +1,6 @@
 #include "h_1.h"
 #include "flaw.h"
+#include "atom_flaw.h"
 #include "resolver.h"
 #include <algorithm>
 #include <cassert>
@@ -48,7 +49,23 @@ namespace ratio
         already_closed.clear();
     }
 
-    void h_1::enqueue(flaw &f) { flaw_q.push_back(&f); }
+    void h_1::enqueue(flaw &f)
+    {
+        const auto is_a_fact = [](const flaw *fl)
+        {
+            const auto *af = dynamic_cast<const atom_flaw *>(fl);
+            return af && af->is_fact;
+        };
+        if (is_a_fact(&f))
+        { // a goal unifies with the atoms whose flaws have already been expanded only: the facts are expanded before the goals, whatever the order in which the problem states them..
+            auto it = flaw_q.begin();
+            while (it != flaw_q.end() && is_a_fact(*it))
+                ++it;
+            flaw_q.insert(it, &f);
+        }
+        else
+            flaw_q.push_back(&f);
+    }
 
     void h_1::propagate_costs(flaw &f)
     {
